@@ -20,7 +20,8 @@ RULE = ('whole stack on in-memory pipes under the baton scheduler (real storage_
         'max) in {128,1024,16384}^2 x source {Dataset, Part-10 file} x reception {file-backed storage_scp, in-memory SCP}. Grid B: '
         'handler outcome {success, warning B006, failure A700, EventHandlingError} x storage entity {AE temporary file, StorageAE '
         'directory} x store history {same instance 1..3 times, two instances, A-B-A}. Grid C: representative configurations under '
-        'ALL schedules with <=1 (2 thorough) preemptions and pipe segmentation {whole, 7 bytes, 1 byte}. '
+        'ALL schedules with <=1 (2 thorough) preemptions, pipe segmentation {whole, 7 bytes, 1 byte} and a coalescing transport (all '
+        'fragments of a message delivered in one read). Grid D: client proposing two transfer syntaxes, provider supporting one. '
         'distinct/non-trivial = distinct (configuration, schedule)')
 ASSUMPTIONS = ['data-set content is derived from VERIF_SEED (content is irrelevant to control flow)',
                'real loopback TCP is replaced by the pipe model with enumerated interleavings (DESIGN.md 2.4)']
@@ -39,7 +40,7 @@ def cases(tier, seed):
                     k = MAXES.index(cm) + MAXES.index(sm) + ti + len(size) + len(shape)
                     for source in ('dataset', 'file'):
                         for recep in ('file', 'memory'):
-                            if tier == 'quick' and (k + (source == 'file') + 2 * (recep == 'file')) % 4:
+                            if tier == 'quick' and (k + (source == 'file') + 2 * (recep == 'file')) % 7:
                                 continue
                             yield {'grid': 'A', 'cmax': cm, 'smax': sm, 'ts': ti, 'size': size, 'shape': shape, 'source': source,
                                    'recep': recep, 'outcome': 'ok', 'entity': 'ae', 'hist': 'A', 'bound': 0, 'seg': None, 'seed': seed}
@@ -63,6 +64,9 @@ def cases(tier, seed):
             dict(cmax=1024, smax=1024, ts=1, size='F', source='dataset', recep='file', entity='ae', hist='AB'))
     for cfg in cfgs:
         yield dict(cfg, grid='C', shape='flat', outcome='ok', bound=bound, seg=None, seed=seed)
+        # coalescing transport: all fragments of a message arrive in one read
+        yield dict(cfg, grid='C', shape='flat', outcome='ok', bound=0, seg=None, seed=seed, cork=True)
+        yield dict(cfg, grid='C', shape='flat', outcome='ok', bound=0, seg=None, seed=seed, cork=True, size='3F+1')
         for seg in (7, 1):
             yield dict(cfg, grid='C', shape='flat', outcome='ok', bound=0, seg=seg, seed=seed)
     if tier == 'thorough':
@@ -158,6 +162,7 @@ def make_scenario(case, tmp):
             ae.add_scp(mem_scp)
         net.listen(('srv', 104), e3.serve_ae(ae))
         net.seg = case['seg']
+        net.cork = bool(case.get('cork'))
         results['ae'] = ae
         cae = applicationentity.ClientAE('SCU', [TS[i] for i in case.get('client_ts', [case['ts']])], case['cmax']).add_scu(sopclass.storage_scu, [CT])
         insts = {'A': '1.2.3.4.1', 'B': '1.2.3.4.2'}
